@@ -18,8 +18,9 @@ def _clean():
 def run(c):
     c.rule = ("step mode: random op sequences (8-28 ops: do ok/failing callback/failing SQL/failing append/read, must-commit-now write, "
               "binlog Commit at a random record boundary incl. stale ones, commit timer incl. a commit parked until the binlog catches up, "
-              "replica Apply/Skip/hold, graceful close, crash image at a random durable boundary + replay with random chunking, "
-              "intermediate and missing final Commit) on one real Engine per case (WaitCommit master / NoWaitCommit master / replica) "
+              "replica Apply/Skip/hold, explicit reader View, graceful close, crash image at a random durable boundary + replay with random "
+              "chunking incl. payloads cut at arbitrary 4-byte positions of the stream (partial records carried over, engine answers "
+              "NotEnoughData/UnknownMagic), intermediate and missing final Commit) on one real Engine per case (WaitCommit master / NoWaitCommit master / replica) "
               "against a scripted binlog; every op is one real call, state dumped after each op. "
               "kill mode: a child process runs 3 writers + 2 readers on a real engine + real on-disk fsbinlog and is SIGKILLed at a seeded "
               "instant 2-3 times per directory. non-trivial = case with a crash/restart, a commit parked behind the binlog, a replica queue, "
@@ -76,7 +77,14 @@ META = {
              "acked_survives_crash, binlog_contiguous (the model's binlog is laid out back to back and all three offsets are record boundaries), "
              "restart_catches_up in CLOSED FORM (kill keeping the binlog up to any record boundary d between fsynced offset and written length, "
              "restart, the reader re-delivers every record, Commit(d), ready: the database holds exactly the events of the durable binlog in "
-             "order, offset row = in-memory offset = d, engine up) with acked_present_after_restart as corollary, "
+             "order, offset row = in-memory offset = d, engine up) with acked_present_after_restart as corollary, and "
+             "restart_catches_up_any_chunking (the same after ANY sequence of reader deliveries first: payloads cut anywhere in the byte "
+             "stream - the engine consumes the complete leading events and reports how far it got, also payloads with no complete event - "
+             "whole-record payloads, skips and periodic Commits in any order; the loop invariant Rd shows no record is lost, duplicated "
+             "or reordered, chunk_makes_progress that a payload containing the next event advances), "
+             "readers_observe_announced_prefix (trace level: split any schedule at any View: the value the callback observes is the "
+             "application of the binlog prefix ending at its offset, that offset is 0 or covered by a Commit already delivered before "
+             "that moment - ghost list ann, pinned by ann_records_commits - and the View changes nothing), "
              "apply_skip_branch_unreachable (the offset row never exceeds the in-memory offset, so the 'skip already applied bytes' branch of "
              "binlog_engine.apply is dead under the engine's own invariants), and replica mode as its own instance: replica_db_is_prefix "
              "(trace level: stays a replica, refuses binlog writes, both prefixes, readers never ahead, events parked only while a commit is "
@@ -90,13 +98,16 @@ META = {
              "restart-failed-torn-tail). Known finding restart-failed-torn-tail (no fix applied): a kill inside a large binlog write(2) leaves a "
              "partial record at the end of the last file; fsbinlog's writer then refuses to reopen it and a master engine does not come up until "
              "the file is cut by hand. The model reproduces this (crash with torn=true -> open-error, field down; theorem "
-             "torn_tail_restart_fails is the decide witness); the unapplied patch is kept as stepFixed."),
+             "torn_tail_restart_fails is the decide witness); the unapplied patch is kept as stepFixed, and "
+             "append_behind_torn_tail_loses_acked is the decide witness for the other side of the design space (seeded change C17-r2-2: "
+             "accepting the longer file and appending behind the torn bytes makes the next re-read swallow an acknowledged event)."),
     "note": ("Partial: restart is proved for kills that leave no partial record after the last complete one (crash op with torn=false, d a record "
              "boundary); with a torn tail the current code fails to restart (known finding, oracle sig restart-failed-torn-tail; any other "
              "restart failure is sig restart-failed and a VIOLATION), hence engine_up_partial / acked_present_after_restart_partial / "
              "restart_catches_up_partial (arbitrary delivery chunking, conditional on 'reader delivered everything') carry noTorn. The closed "
-             "form uses the canonical one-record-per-call replay; other chunkings are covered by the conditional theorem and by the "
-             "correspondence. Contiguity of record offsets is proved for the model's writer; that the real fsbinlog lays files out that way is "
+             "form now covers arbitrary chunking of the delivery (any prefix of cut/whole payloads, skips, commits), completed by "
+             "handing over the remaining records; reader-side service-record parsing and the 4-byte alignment of buffers are the "
+             "harness' scripted binlog, not modelled byte by byte. Contiguity of record offsets is proved for the model's writer; that the real fsbinlog lays files out that way is "
              "its contract (C18) and is only observed here. SQLite durability/atomic commit, fsync, the Go scheduler and fsbinlog's "
              "fsync-before-Commit are trusted; kill instants are sampled (quick ~15 kills, thorough ~200). The skip branch of apply() is not in "
              "the model because apply_skip_branch_unreachable shows its guard false (tx.off <= dbOffset is also observed on the real engine "
